@@ -403,18 +403,18 @@ def geneToDict (o : GeneObj) : PyVal :=
 
 /-- the digest of a collection built from child OBJECTS: the children's stored GUIDs are digested (whether they were
     read from the dictionary or recomputed) -/
-def geneObjDigestArgs (txs : List TxObj) (gid sym ty lt sname : Option Str) (q : Quals) (cs : Int) :
+def geneObjDigestArgs (txs : List TxObj) (gid sym ty lt sname : Option Str) (q : Quals) (cs : Frame) :
     Option (List PyVal) :=
   (spanOf (txs.map fun t => t.args.bounds)).map fun sp =>
     [spanVal sp.1 sp.2 cs, ofOptStr gid, ofOptStr sym, ofOptBiotype ty, ofOptStr lt, ofOptStr sname,
       qualsVal q, .set (txs.map fun t => .uuid t.guid)]
 
-def geneGuidOfObjs (txs : List TxObj) (gid sym ty lt sname : Option Str) (q : Quals) (cs : Int) : Option Str :=
+def geneGuidOfObjs (txs : List TxObj) (gid sym ty lt sname : Option Str) (q : Quals) (cs : Frame) : Option Str :=
   (geneObjDigestArgs txs gid sym ty lt sname q cs).map (guidOf md5)
 
-/-- gene.py:146-160 + constructor; `cs` = start of the chunk parent handed to `from_dict` (0 without parent / on a
-    chromosome parent; the chunk is assumed to contain the gene); an empty transcript list is refused -/
-def geneFromDict (cs : Int) (d : PyVal) : D GeneObj := do
+/-- gene.py:146-160 + constructor; `cs` = frame of the chunk parent handed to `from_dict` (`Frame.none` without parent / on
+    a chromosome parent; the chunk is assumed to contain the gene); an empty transcript list is refused -/
+def geneFromDict (cs : Frame) (d : PyVal) : D GeneObj := do
   let txs ← (← asList (← getK .transcripts d)).mapM (txFromDict md5)
   let gid ← asOptStr (← getK .gene_id d)
   let sym ← asOptStr (← getK .gene_symbol d)
@@ -449,17 +449,17 @@ def fcToDict (o : FcObj) : PyVal :=
     (.sequence_name, ofOptStr o.sequenceName), (.sequence_guid, ofOptUuid o.sequenceGuid),
     (.feature_collection_guid, .uuid o.guid)]
 
-def fcObjDigestArgs (fs : List FeatObj) (name id ctype lt sname : Option Str) (q : Quals) (cs : Int) :
+def fcObjDigestArgs (fs : List FeatObj) (name id ctype lt sname : Option Str) (q : Quals) (cs : Frame) :
     Option (List PyVal) :=
   (spanOf (fs.map fun f => f.args.bounds)).map fun sp =>
     [spanVal sp.1 sp.2 cs, ofOptStr name, ofOptStr id, ofOptStr ctype,
       .set ((strUnion (fs.map (·.args.featureTypes))).map .str), ofOptStr lt, ofOptStr sname, qualsVal q,
       .set (fs.map fun f => .uuid f.guid)]
 
-def fcGuidOfObjs (fs : List FeatObj) (name id ctype lt sname : Option Str) (q : Quals) (cs : Int) : Option Str :=
+def fcGuidOfObjs (fs : List FeatObj) (name id ctype lt sname : Option Str) (q : Quals) (cs : Frame) : Option Str :=
   (fcObjDigestArgs fs name id ctype lt sname q cs).map (guidOf md5)
 
-def fcFromDict (cs : Int) (d : PyVal) : D FcObj := do
+def fcFromDict (cs : Frame) (d : PyVal) : D FcObj := do
   let fs ← (← asList (← getK .feature_intervals d)).mapM (featFromDict md5)
   let name ← asOptStr (← getK .feature_collection_name d)
   let id ← asOptStr (← getK .feature_collection_id d)
@@ -491,18 +491,18 @@ def vcToDict (o : VcObj) : PyVal :=
     (.sequence_name, ofOptStr o.sequenceName), (.sequence_guid, ofOptUuid o.sequenceGuid),
     (.variant_collection_guid, .uuid o.guid)]
 
-def vcObjDigestArgs (vs : List VarObj) (name id sname : Option Str) (q : Quals) (cs : Int) : Option (List PyVal) :=
+def vcObjDigestArgs (vs : List VarObj) (name id sname : Option Str) (q : Quals) (cs : Frame) : Option (List PyVal) :=
   (spanOf (vs.map fun v => (some v.args.start, some v.args.stop))).map fun sp =>
     [spanVal sp.1 sp.2 cs, ofOptStr name, ofOptStr id, ofOptStr sname, qualsVal q,
       .set (vs.map fun v => .uuid v.guid)]
 
-def vcGuidOfObjs (vs : List VarObj) (name id sname : Option Str) (q : Quals) (cs : Int) : Option Str :=
+def vcGuidOfObjs (vs : List VarObj) (name id sname : Option Str) (q : Quals) (cs : Frame) : Option Str :=
   (vcObjDigestArgs vs name id sname q cs).map (guidOf md5)
 
 /-- `sorted(variant_intervals, key=lambda x: x.start)` (stable) -/
 def sortVars (vs : List VarObj) : List VarObj := vs.mergeSort fun a b => decide (a.args.start ≤ b.args.start)
 
-def vcFromDict (cs : Int) (d : PyVal) : D VcObj := do
+def vcFromDict (cs : Frame) (d : PyVal) : D VcObj := do
   let vs0 ← (← asList (← getK .variant_intervals d)).mapM (varFromDict md5)
   let name ← asOptStr (← getK .variant_collection_name d)
   let id ← asOptStr (← getK .variant_collection_id d)
@@ -625,22 +625,22 @@ def acToDict (o : AcObj) (exportParent : Bool) : D PyVal :=
       (.parent_or_seq_chunk_parent, if exportParent then parentToDict o.parent b else .none)])
 
 /-- the collection's digest (collections.py:152-154), children given by their stored GUIDs; `cs` = chunk start -/
-def boundsVal (cs : Int) : Option (Int × Int) → PyVal
+def boundsVal (cs : Frame) : Option (Int × Int) → PyVal
   | none => ofEmptyLocation
   | some b => spanVal b.1 b.2 cs
 
-def acDigestArgs (bounds : Option (Int × Int)) (cs : Int) (name sname : Option Str) (q : Quals) (cw : Option Bool)
+def acDigestArgs (bounds : Option (Int × Int)) (cs : Frame) (name sname : Option Str) (q : Quals) (cw : Option Bool)
     (children : List Str) : List PyVal :=
   [boundsVal cs bounds, ofOptStr name, ofOptStr sname, qualsVal q, ofOptBool cw, .set (children.map .uuid)]
 
-def acGuidOf (bounds : Option (Int × Int)) (cs : Int) (name sname : Option Str) (q : Quals) (cw : Option Bool)
+def acGuidOf (bounds : Option (Int × Int)) (cs : Frame) (name sname : Option Str) (q : Quals) (cw : Option Bool)
     (children : List Str) : Str :=
   guidOf md5 (acDigestArgs bounds cs name sname q cw children)
 
 /-- chunk start of a parent (0 unless a chunk) -/
-def ParentDesc.chunkStart : ParentDesc → Int
-  | .chunk _ _ _ s _ _ => s
-  | _ => 0
+def ParentDesc.frame : ParentDesc → Frame
+  | .chunk _ _ _ s e st => ⟨s, e, st == .minus⟩
+  | _ => Frame.none
 
 /-- bounds the constructor infers when `start`/`end` are not given (collections.py:122-144): from the parent's
     chromosome location, else from the children of a non-empty (genes + feature collections) collection -/
@@ -671,9 +671,9 @@ def resolveBounds (s e : Option Int) (inferred : Option (Int × Int)) : D (Optio
 /-- collections.py:354-453 + constructor; `given` = the `parent_or_seq_chunk_parent` argument of `from_dict` -/
 def acFromDict (d : PyVal) (given : ParentDesc) : D AcObj := do
   let parent ← resolveParent d given
-  let genes ← optChildren (geneFromDict md5 parent.chunkStart) (← getK .genes d)
-  let fcs ← optChildren (fcFromDict md5 parent.chunkStart) (← getK .feature_collections d)
-  let vcs ← optChildren (vcFromDict md5 parent.chunkStart) (← getK .variant_collections d)
+  let genes ← optChildren (geneFromDict md5 parent.frame) (← getK .genes d)
+  let fcs ← optChildren (fcFromDict md5 parent.frame) (← getK .feature_collections d)
+  let vcs ← optChildren (vcFromDict md5 parent.frame) (← getK .variant_collections d)
   let name ← asOptStr (← getK .name d)
   let id ← asOptStr (← getK .id d)
   let quals ← asRawQuals (← getK .qualifiers d)
@@ -687,7 +687,7 @@ def acFromDict (d : PyVal) (given : ParentDesc) : D AcObj := do
   let q := importQuals quals
   let children := genes.map (·.guid) ++ fcs.map (·.guid) ++ vcs.map (·.guid)
   pure ⟨genes, fcs, vcs, name, id, q, sname, sguid, spath, bounds, cw, parent,
-        acGuidOf md5 bounds parent.chunkStart name sname q cw children⟩
+        acGuidOf md5 bounds parent.frame name sname q cw children⟩
 
 end
 end BioCantor.Model.Digest
